@@ -5,8 +5,12 @@
 //        <tz> minutes east of UTC (a POSIX TZ string such as VRF-09:00, no tz database needed), sink constructed
 //        optional after <tz>: <codec> ("-" or a QTextCodec name set with QTextCodec::setCodecForLocale before the sink is
 //        created) and <quiet> (1 = no flush and no listing until the `end` line: every other line prints "-")
-//   w <payload hex> | adv <ms> | restart | put <name hex> <bytes hex>
-//   w2 <payload hex>     write through a SECOND live sink object on the same path (created at its first use)
+//   w <payload hex> [<type>] | adv <ms> | restart | put <name hex> <bytes hex>
+//        <type> = the QtMsgType of the message, 0 debug 1 warning 2 critical 3 fatal 4 info (default); the sink is called
+//        directly, so a fatal-typed record does not abort the process
+//   w2 <payload hex> [<type>]   write through a SECOND live sink object on the same path (created at its first use)
+//   wo <file name hex> <payload hex> [<type>]   write through a live sink object (same L, N, options; created at its first use,
+//        destroyed by restart / end) on ANOTHER log file of the same directory: two unrelated sinks of one process
 //   sparse <bytes>       truncate(2) the active file to that size (a sparse file; listings show big files as @<size>)
 //   end                  destroy the sink object(s) and print the listing (the only listing of a quiet case)
 // output per line: <name hex>:<mtime ms>:<content hex>;...   (sorted by name hex; "-" = empty)
@@ -107,6 +111,13 @@ int main(int argc, char **argv)
     tzset();
     QMessageLogContext ctx("f.cpp", 1, "void f()", "cat");
     RotatingFileSink *sink = nullptr, *sink2 = nullptr;
+    std::map<std::string, RotatingFileSink *> others;
+    auto drop_others = [&others]() { for (auto &kv : others) delete kv.second; others.clear(); };
+    auto mtype = [](std::istringstream &is) {
+        int t = 4;
+        if (!(is >> t)) t = 4;
+        return t == 0 ? QtDebugMsg : t == 1 ? QtWarningMsg : t == 2 ? QtCriticalMsg : t == 3 ? QtFatalMsg : QtInfoMsg;
+    };
     bool quiet = false;
     int L = 0, N = 0, o = 0, ncase = 0;
     QString path;
@@ -118,6 +129,7 @@ int main(int argc, char **argv)
         if (op == "case") {
             delete sink; sink = nullptr;
             delete sink2; sink2 = nullptr;
+            drop_others();
             if (!dir.isEmpty()) QDir(dir).removeRecursively();
             std::string b, s, codec = "-"; long long t0; int tz = 0, q = 0;
             is >> L >> N >> o >> g_gran >> b >> s >> t0 >> tz >> codec >> q;
@@ -140,24 +152,33 @@ int main(int argc, char **argv)
             sink = new RotatingFileSink(path, L, N, RotatingFileSink::Options(o));
         } else if (op == "restart") {
             delete sink2; sink2 = nullptr;
+            drop_others();
             delete sink;
             sink = new RotatingFileSink(path, L, N, RotatingFileSink::Options(o));
         } else if (op == "w") {
             std::string h; is >> h;
-            LogMessage m(QtInfoMsg, ctx, QString::fromUtf8(unhex(h)));
+            LogMessage m(mtype(is), ctx, QString::fromUtf8(unhex(h)));
             sink->send(m);
             if (!quiet) sink->flush();
         } else if (op == "w2") {
             std::string h; is >> h;
             if (!sink2) sink2 = new RotatingFileSink(path, L, N, RotatingFileSink::Options(o));
-            LogMessage m(QtInfoMsg, ctx, QString::fromUtf8(unhex(h)));
+            LogMessage m(mtype(is), ctx, QString::fromUtf8(unhex(h)));
             sink2->send(m);
             sink2->flush();
+        } else if (op == "wo") {
+            std::string n, h; is >> n >> h;
+            auto &so = others[n];
+            if (!so) so = new RotatingFileSink(dir + "/" + QFile::decodeName(unhex(n)), L, N, RotatingFileSink::Options(o));
+            LogMessage m(mtype(is), ctx, QString::fromUtf8(unhex(h)));
+            so->send(m);
+            so->flush();
         } else if (op == "sparse") {
             long long n; is >> n;
             truncate(QFile::encodeName(path).constData(), n);
         } else if (op == "end") {
             delete sink2; sink2 = nullptr;
+            drop_others();
             delete sink; sink = nullptr;
             quiet = false;
         } else if (op == "adv") {
@@ -173,6 +194,7 @@ int main(int argc, char **argv)
         if (quiet) std::cout << "-" << std::endl; else dump();
     }
     delete sink2;
+    drop_others();
     delete sink;
     if (!dir.isEmpty()) QDir(dir).removeRecursively();
     return 0;
